@@ -138,6 +138,21 @@ fn c09_strcodec_0to3() {
     kani::cover!(true, "reached");
 }
 
+/// Same round trip in group "rdbchunk", where the reader's chunk size (64 KiB in the source) is
+/// shrunk to 2 bytes in the scratch copy: 3- and 5-byte strings then take the multi-chunk path
+/// (first chunk adopted, later chunks appended, last chunk short) that real strings longer than
+/// 64 KiB take.
+#[kani::proof]
+#[kani::unwind(10)]
+#[kani::stub(alloc::fmt::format, fmt_stub)]
+#[kani::stub(RdbReader::read_exact, read_exact_nofmt)]
+fn c09_strcodec_chunked() {
+    string_rt::<2>();
+    string_rt::<3>();
+    string_rt::<5>();
+    kani::cover!(true, "reached");
+}
+
 // ---------------------------------------------------------------- C09 (c) one record per value type
 /// `Arc<StorageEngine>` whose ArcInner lives on the harness stack.  The reader takes
 /// `&Arc<StorageEngine>` and only dereferences it; with a real `Arc::new` the engine struct is
